@@ -6,6 +6,7 @@
 set -u
 PID=$1; PATCH=$(readlink -f "$2"); TIER=${3:-quick}
 S=/tmp/mutcheck.$$; mkdir -p $S
+trap 'git -C /repo worktree remove --force $S/repo >/dev/null 2>&1; rm -rf $S' EXIT INT TERM
 git -C /repo worktree add --detach $S/repo HEAD >/dev/null 2>&1 || { echo "worktree failed"; exit 2; }
 if ! git -C $S/repo apply "$PATCH"; then echo "PATCH-DOES-NOT-APPLY"; git -C /repo worktree remove --force $S/repo; rm -rf $S; exit 2; fi
 rsync -a --exclude .git --exclude build/replay --exclude 'build/C*' /verif/ $S/verif/
